@@ -12,10 +12,11 @@ RULE = ("Finite grid, fully enumerated in both tiers: reference position (instru
         "Oracle: all references defined and bodies only using later-listed macros -> compiles and the regex contains no '@'; "
         "some reference undefined -> raises and the message names it; definition without '@' -> raises; otherwise (defined but "
         "listed earlier than its user, or a defined string macro used as a key with an operand list) -> expanded or reported, "
-        "i.e. if it compiles the regex contains no '@'. Non-trivial = every grid cell; distinct = (cell, variant).")
+        "i.e. if it compiles the regex contains no '@'. History stratum: sequences of rules compiled in one process against one extra macro "
+        "file whose macro refers to a macro the rule must supply (supplying rule -> clean, non-supplying rule -> reported, in every order). Non-trivial = every grid cell; distinct = (cell, variant).")
 FLOOR = {"quick": 400, "thorough": 5000}
 ANCHOR_HINTS = ["macro_expander", "yaml2regex"]
-REQUIRED_EVENTS = ["cells_judged"]
+REQUIRED_EVENTS = ["cells_judged", "history_steps_judged"]
 SHARDS = {"quick": 8, "thorough": 16}
 
 POSITIONS = ["item", "operand", "deref_value", "key_times", "key_operands", "body_item", "body_operand", "or_item"]
@@ -128,8 +129,50 @@ def judge(ctx, ws, cell, variant):
             ctx.disagreement(case, f"reference {ref} (position {pos}, {order}) silently survived into the regex: {r[1][:200]}", key)
 
 
+def history_stratum(ctx, ws, n):
+    """Several rules compiled in ONE process against the same extra macro file: a library macro whose body refers to a macro the
+    RULE has to supply. A rule that supplies it compiles clean; a rule that does not must be reported - also when it is compiled
+    after one that did (nothing of an earlier expansion may stay in the library)."""
+    rng = ctx.rng
+    for _ in range(n):
+        inner = rng.choice(["@inner", "@scratch", "@r1", "@any_reg"])
+        lib = rng.choice(["@lib", "@save", "@l", "@zz_prologue"])
+        body = rng.choice([[{"$and": ["push", inner]}], [{"mov": ["%rbx", inner]}], [{"$or": ["nop", inner]}], [{"$and": ["call", inner, "ret"]}],
+                           [{inner: {"times": 2}}], [{"$and_any_order": [inner, "push"]}]])
+        others = [{"name": "@other", "pattern": "nop"}] if rng.random() < 0.5 else []
+        libfile = ws.write("lib.yaml", real.dump_rule({"macros": others + [{"name": lib, "pattern": body}]}))
+        val = rng.choice(["%rax", "pop", "%r12"]) if isinstance(body[-1], dict) and "mov" in body[-1] else rng.choice(["pop", "leave", "inc"])
+        A = real.dump_rule({"macros": [{"name": inner, "pattern": val}], "pattern": ["call", lib]})
+        A2 = real.dump_rule({"macros": [{"name": inner, "pattern": "hlt" if val != "hlt" and not val.startswith("%") else "%rdx"}], "pattern": [lib, "ret"]})
+        B = real.dump_rule({"macros": [{"name": "@unrelated", "pattern": "nop"}], "pattern": ["call", lib]})
+        B0 = real.dump_rule({"pattern": ["call", lib]})
+        seq = rng.choice([["A", "B"], ["A", "B0"], ["B", "A", "B"], ["A", "A2", "B"], ["A", "B", "A2", "B0"], ["A2", "A", "B0"]])
+        texts = {"A": A, "A2": A2, "B": B, "B0": B0}
+        for step, name in enumerate(seq):
+            if rng.random() < 0.3:
+                libfile = ws.write("lib.yaml", open(libfile).read())       # same path, rewritten with the same content
+            r = real.compile_rule(ws.write(f"h_{name}.yaml", texts[name]), [libfile])
+            ctx.ran()
+            ctx.event("history_steps_judged")
+            ctx.case(("history", tuple(seq), step, str(body), inner), True, stratum="history/" + name.rstrip("02"), outcome=r[0])
+            case = {"history": [texts[x] for x in seq[:step + 1]], "extra_macro_file": open(libfile).read(), "ref": inner, "rule": texts[name],
+                    "expect": "compile_clean" if name.startswith("A") else "raise_naming", "cell": ["history"]}
+            if name.startswith("A"):
+                if r[0] != "ok" or "@" in r[1]:
+                    ctx.disagreement(case, f"step {step} ({name}) of {seq}: the rule defines {inner} for the library macro {lib} but got {str(r[:3])[:200]}")
+                    break
+            elif r[0] == "ok":
+                ctx.disagreement(case, f"step {step} ({name}) of {seq}: {inner}, which the library macro {lib} needs, is defined nowhere for this rule, "
+                                       f"yet it compiled: {r[1][:200]}")
+                break
+            elif inner not in r[2]:
+                ctx.disagreement(case, f"step {step} ({name}) of {seq}: error {r[1]}: {r[2]!r} does not name {inner}")
+                break
+
+
 def run_shard(ctx):
     ws = real.Workspace()
+    history_stratum(ctx, ws, ctx.share(64, 2000))
     cells = list(itertools.product(POSITIONS, DEFINED, ORDER, WHERE, OTHERS))
     variants = 2 if ctx.tier == "quick" else 40
     jobs = [(c, v) for c in cells for v in range(variants)]
@@ -140,6 +183,15 @@ def run_shard(ctx):
 
 def replay(ctx, case):
     ws = real.Workspace()
+    if case.get("history"):
+        lib = ws.write("lib.yaml", case["extra_macro_file"])
+        r = None
+        for i, t in enumerate(case["history"]):
+            r = real.compile_rule(ws.write(f"h{i}.yaml", t), [lib])
+        ctx.ran(len(case["history"]))
+        if (case["expect"] == "compile_clean" and (r[0] != "ok" or "@" in r[1])) or (case["expect"] == "raise_naming" and (r[0] == "ok" or case["ref"] not in r[2])):
+            ctx.disagreement(case, f"last step of the history: expected {case['expect']}, got {str(r[:3])[:200]}")
+        return
     files = [ws.write("mx.yaml", case["extra_macro_file"])] if case.get("extra_macro_file") else None
     r = real.compile_rule(ws.write("rule.yaml", case["rule"]), files)
     ctx.ran()
